@@ -63,6 +63,9 @@ func TestC19(t *testing.T) {
 			c := r.prioCase(t, sc)
 			if c.res != nil && c.res.CensusTaken {
 				r.Count("census."+sc.Ver+"."+c.res.TermWay, 1)
+				if c.res.ErrIgnored {
+					r.Count("census.v2.divider-fault.err-never-read", 1)
+				}
 				r.NonTrivial(jsonString(sc))
 				if r.WantSample() {
 					r.Sample(map[string]any{"scenario": sc, "terminated": c.res.TermWay, "leaked": c.res.Leaked})
